@@ -215,6 +215,14 @@ func (p *PF) run(fn *ssa.Function, entry StateSet, visit func(fn *ssa.Function, 
 		}
 		for idx, succ := range b.Succs {
 			es := s
+			// a branch on the flag of the active specialisation (variants.go): only the live side is followed
+			if activeSpec != nil && len(b.Instrs) > 0 {
+				if iff, isIf := b.Instrs[len(b.Instrs)-1].(*ssa.If); isIf {
+					if v, ok := specFlagValue(iff.Cond); ok && v != (idx == 0) {
+						continue
+					}
+				}
+			}
 			// jump threading: b only merges a boolean flag set to constants on its incoming edges and branches on it
 			// (`woken := false; select { case …: woken = true }; if !woken {…}`): each incoming edge continues to the successor
 			// its constant selects, instead of being merged with the others first
